@@ -8,6 +8,8 @@
 import LiteFSVerif.Proofs.Engine
 import LiteFSVerif.Proofs.Image
 import LiteFSVerif.Proofs.ApplyBytes
+import LiteFSVerif.Gen.Skel
+import LiteFSVerif.Model.ExpectedSkel
 
 set_option linter.unusedSimpArgs false
 
@@ -73,5 +75,13 @@ theorem C15_replica_applies_tombstone (s s' : Eng) (f : LTXFile) (fatal : Bool)
     s'.dbFile = none ∧ s'.journal = none ∧ s'.wal = none ∧ s'.pageN = 0 ∧ s'.walMode = false ∧
     s'.posTxid = f.maxTxid ∧ s'.posChk = f.post :=
   applyLTX_tombstone s s' f fatal h hc
+
+/-- the control skeletons (branch conditions, loop heads, returns, order of calls and of state
+    assignments) of `DB.Drop`, regenerated from the current source on every run, are the ones the
+    model was written and validated against (Model/ExpectedSkel.lean): a reordered, dropped or
+    altered check or call in these functions breaks this theorem -/
+theorem C15_source_skeletons :
+    Gen.Skel.DB_Drop = Expected.Skel.DB_Drop :=
+  rfl
 
 end LiteFSVerif.C15
